@@ -52,7 +52,8 @@ type Spec struct {
 	Wrap      string // none | wrapErrors | wrapErrorsUsing
 	KeyLeaf   bool
 	// swarm-style per-world knobs
-	W          [9]int // weights: leaf, basic, nbasic, struct, ptr, slice, map, ustruct, ref
+	W          [10]int // weights: leaf, basic, nbasic, struct, ptr, slice, map, ustruct, ref, enum
+	Enums      map[int]int // enum id → member count
 	ULeafPct   int    // C07: chance that a field of an unnamed struct is a fallible leaf
 	UFieldsMax int
 	// SkipCopyMode (C04): none | converter | methods (method-level setting on a subset)
@@ -72,7 +73,11 @@ func NewSpec(seed uint64, prop string) *Spec {
 		rng: rand.New(rand.NewPCG(seed, 0x5eed)), maxDepth: 4}
 	r := s.rng
 	s.Format = []string{"struct", "struct", "function", "variables"}[r.IntN(4)]
-	base := [9]int{0, 20, 6, 16, 12, 12, 10, 3, 3}
+	base := [10]int{0, 20, 6, 16, 12, 12, 10, 3, 3, 0}
+	if prop == "C04" {
+		base[9] = 6
+	}
+	s.Enums = map[int]int{}
 	if prop == "C07" {
 		base[0] = 18
 	}
@@ -271,6 +276,10 @@ func (s *Spec) gen(depth int, parent *node) *node {
 			n.Fields = append(n.Fields, &field{Name: fmt.Sprintf("U%d", i), TName: fmt.Sprintf("U%d", i), N: fn})
 		}
 		return n
+	case 9:
+		n := &node{Kind: "enum", ID: s.id()}
+		s.Enums[n.ID] = []int{2, 3, 5, 8, 9, 12, 16}[r.IntN(7)]
+		return n
 	default:
 		// a reference to a struct declared earlier: an ancestor (recursion, through a
 		// pointer or slice) or any completed struct (the same named pair is then reachable
@@ -320,6 +329,11 @@ func (s *Spec) expr(n *node, side string) string {
 		return fmt.Sprintf("%s%d", side, n.ID)
 	case "leaf":
 		return fmt.Sprintf("%sLeaf%d", side, n.ID)
+	case "enum":
+		if side == "T" {
+			return fmt.Sprintf("te.TE%d", n.ID)
+		}
+		return fmt.Sprintf("SE%d", n.ID)
 	case "ptr":
 		return "*" + s.expr(n.Elem, side)
 	case "slice":
@@ -365,6 +379,20 @@ func (s *Spec) TypesSource() string {
 	b.WriteString("package w\n\n")
 	if s.usesRuntime() {
 		b.WriteString("import \"verifsim\"\n\n")
+	}
+	if len(s.Enums) > 0 {
+		b.WriteString("import \"cw/w/te\"\n\n")
+		for _, id := range sortedIDs(s.Enums) {
+			fmt.Fprintf(&b, "type SE%d int\n\nconst (\n", id)
+			for k := 0; k < s.Enums[id]; k++ {
+				if k == 0 {
+					fmt.Fprintf(&b, "\tE%dM%d SE%d = iota\n", id, k, id)
+				} else {
+					fmt.Fprintf(&b, "\tE%dM%d\n", id, k)
+				}
+			}
+			b.WriteString(")\n")
+		}
 	}
 	for _, id := range sortedIDs(s.NBasics) {
 		fmt.Fprintf(&b, "type SN%d %s\ntype TN%d %s\n", id, s.NBasics[id], id, s.NBasics[id])
@@ -529,6 +557,9 @@ func (s *Spec) ConverterSource() string {
 		if s.SkipCopy {
 			lines = append(lines, "// goverter:skipCopySameType")
 		}
+		if len(s.Enums) > 0 {
+			lines = append(lines, "// goverter:enum:unknown @ignore")
+		}
 		if !twin {
 			switch s.Wrap {
 			case "wrapErrors":
@@ -667,4 +698,23 @@ func (s *Spec) genChain(n int) *node {
 		}
 	}
 	return cur
+}
+
+// EnumTargetSource renders package te: the target-side enum types (members carry the same
+// names as on the source side, which lives in package w).
+func (s *Spec) EnumTargetSource() string {
+	var b strings.Builder
+	b.WriteString("package te\n\n")
+	for _, id := range sortedIDs(s.Enums) {
+		fmt.Fprintf(&b, "type TE%d int\n\nconst (\n", id)
+		for k := 0; k < s.Enums[id]; k++ {
+			if k == 0 {
+				fmt.Fprintf(&b, "\tE%dM%d TE%d = iota\n", id, k, id)
+			} else {
+				fmt.Fprintf(&b, "\tE%dM%d\n", id, k)
+			}
+		}
+		b.WriteString(")\n")
+	}
+	return b.String()
 }
